@@ -680,18 +680,125 @@ func c17HTTP(r *ck.Run) {
 		n := st.cacheLen()
 		step("cache-holds-one-entry-per-account", n <= len(users)+2, fmt.Sprintf("cache has %d entries after 120 requests by %d accounts: %s", n, len(users), st.cacheDump()))
 		// and every entry must be the account it is filed under
-		bad := ""
-		items := st.cacheItems()
-		for _, k := range items.MapKeys() {
-			cp := reflect.New(items.MapIndex(k).Type()).Elem()
-			cp.Set(items.MapIndex(k))
-			val := cp.FieldByName("value")
-			acct := reflect.NewAt(val.Type(), unsafe.Pointer(val.UnsafeAddr())).Elem().Interface().(auth.Account)
-			if acct.Access != k.String() {
-				bad += fmt.Sprintf("%q->%q ", k.String(), acct.Access)
-			}
-		}
+		bad := c17Misfiled(cache)
 		step("cache-entries-filed-under-their-own-access-key", bad == "", bad)
 	}
+	c17HTTPUpdates(r)
 	r.Sample(map[string]any{"http_steps": "create → use at once (uid/gid) → update secret → old rejected/new accepted → update uid → delete → rejected; cache size after mixed traffic"})
+}
+
+// c17Misfiled lists the cache entries whose account is not the one they are filed under.
+func c17Misfiled(cache *auth.IAMCache) string {
+	st := &c17Store{Cache: cache}
+	bad := ""
+	items := st.cacheItems()
+	it := items.MapRange()
+	for it.Next() {
+		k, v := it.Key(), it.Value()
+		cp := reflect.New(v.Type()).Elem()
+		cp.Set(v)
+		val := cp.FieldByName("value")
+		acct := reflect.NewAt(val.Type(), unsafe.Pointer(val.UnsafeAddr())).Elem().Interface().(auth.Account)
+		if acct.Access != k.String() {
+			bad += fmt.Sprintf("%q->%q ", k.String(), acct.Access)
+		}
+		// a key whose bytes changed after it was inserted can no longer be looked up
+		if !items.MapIndex(reflect.ValueOf(strings.Clone(k.String()))).IsValid() {
+			bad += fmt.Sprintf("%q-cannot-be-looked-up ", k.String())
+		}
+	}
+	return bad
+}
+
+// c17HTTPUpdates: every sequence of <= 3 update-user calls (new secret / new user id) on three accounts of three
+// roles through the admin API over HTTP, each followed by signed requests of all three accounts: every account
+// authenticates with its current secret only, keeps its own role, and the cache files it under its own access key
+// (the access key reaches the cache as a string over the server's request buffer, which later requests overwrite).
+func c17HTTPUpdates(r *ck.Run) {
+	type acct struct {
+		Access, Role string
+	}
+	accts := []acct{{"alice", "admin"}, {"bobby", "user"}, {"carol", "userplus"}}
+	type upd struct {
+		Who  int
+		Kind string // secret | uid
+	}
+	var alpha []upd
+	for i := range accts {
+		alpha = append(alpha, upd{i, "secret"}, upd{i, "uid"})
+	}
+	var seqs [][]int
+	var gen func(cur []int)
+	gen = func(cur []int) {
+		if len(cur) > 0 {
+			seqs = append(seqs, append([]int{}, cur...))
+		}
+		if len(cur) == 3 {
+			return
+		}
+		for i := range alpha {
+			gen(append(cur, i))
+		}
+	}
+	gen(nil)
+	f := NewFx("c17u", gw.Opts{})
+	defer f.Close()
+	Must(f.CreateBucket(gw.Root, "ubk"), "create bucket")
+	for si, seq := range seqs {
+		secrets := map[string]string{}
+		for _, a := range accts {
+			f.Do(gw.Root, "PATCH", "/delete-user", "access="+a.Access, nil, nil)
+			secrets[a.Access] = a.Access + "-first-secret-000"
+			Must(f.Do(gw.Root, "PATCH", "/create-user", "", nil, xmlUser(gw.Creds{Access: a.Access, Secret: secrets[a.Access]}, a.Role, 1000, 1000)), "create "+a.Access)
+		}
+		var names []string
+		old := map[string]string{}
+		for n, ui := range seq {
+			u := alpha[ui]
+			a := accts[u.Who]
+			names = append(names, u.Kind+"("+a.Access+")")
+			body := fmt.Sprintf("<MutableProps><UserID>%d</UserID></MutableProps>", 2000+n)
+			if u.Kind == "secret" {
+				old[a.Access] = secrets[a.Access]
+				secrets[a.Access] = fmt.Sprintf("%s-secret-no-%d-0000000", a.Access, n)
+				body = "<MutableProps><Secret>" + secrets[a.Access] + "</Secret></MutableProps>"
+			}
+			Must(f.Do(gw.Root, "PATCH", "/update-user", "access="+a.Access, nil, []byte(body)), "update "+a.Access)
+			// traffic in between: the request buffers are reused and overwritten
+			f.Do(gw.Creds{Access: accts[(u.Who+1)%3].Access, Secret: secrets[accts[(u.Who+1)%3].Access]}, "GET", "/ubk", gw.Q("prefix", "zzzzzzzzzzzzzzzzzzzzzzzzzzzzzzzzzzzzzzzzzzzz"), nil, nil)
+		}
+		r.Distinct(fmt.Sprintf("http-updates|%v", seq))
+		var an []string
+		for _, a := range accts {
+			cur := gw.Creds{Access: a.Access, Secret: secrets[a.Access]}
+			resp := f.Do(cur, "PATCH", "/list-users", "", nil, nil)
+			r.Add("evaluations", 1)
+			code := resp.ErrCode()
+			if code == "SignatureDoesNotMatch" || code == "InvalidAccessKeyId" {
+				an = append(an, "current-secret-rejected")
+			}
+			if a.Role == "admin" && !resp.OK() {
+				an = append(an, "admin-lost-its-role")
+			}
+			if a.Role != "admin" && resp.OK() {
+				an = append(an, "account-acts-with-another-accounts-role")
+			}
+			if o := old[a.Access]; o != "" {
+				resp := f.Do(gw.Creds{Access: a.Access, Secret: o}, "GET", "/ubk", "", nil, nil)
+				r.Add("evaluations", 1)
+				if resp.Status != 403 {
+					an = append(an, "replaced-secret-still-accepted")
+				}
+			}
+		}
+		if cache, ok := f.G.IAM.(*auth.IAMCache); ok {
+			if bad := c17Misfiled(cache); bad != "" {
+				an = append(an, "cache-entry-filed-under-another-access-key")
+			}
+		}
+		r.Outcome(fmt.Sprintf("http-updates:%d", len(an)))
+		if len(an) > 0 {
+			r.Violation(ck.JoinSig("http-updates", strings.Join(dedup(an), "+")), map[string]any{"sequence": names, "index": si})
+		}
+	}
 }
